@@ -27,7 +27,7 @@ class Infeasible(Exception): pass
 class OutsideSubset(Exception): pass
 class Undecided(Exception): pass
 
-STATS = {'z3': 0, 'z3_t': 0.0, 'cvc5': 0, 'cvc5_t': 0.0, 'unknown': 0}
+STATS = {'z3': 0, 'z3_t': 0.0, 'cvc5': 0, 'cvc5_t': 0.0, 'unknown': 0, 'bad_model': 0}
 
 # ----------------------------------------------------------------------------- regex -> z3
 def _rng(a, b): return z3.Range(z3.StringVal(chr(a)), z3.StringVal(chr(b)))
@@ -247,7 +247,39 @@ class Model:
         return ''.join(a if isinstance(a, str) else self.var(a.name) for a in s.atoms)
     def expr(self, e):
         if self.zm is not None: return self.zm.eval(e, model_completion=True)
-        raise Undecided('expr eval on cvc5 model')
+        names = {}
+        def walk(x):
+            if z3.is_const(x) and x.decl().kind() == z3.Z3_OP_UNINTERPRETED: names[x.decl().name()] = x
+            for ch in x.children(): walk(ch)
+        walk(e)
+        sub = []
+        for n, x in names.items():
+            if x.sort() == _STR: sub.append((x, z3.StringVal(self.d.get(n, ''))))
+            elif x.sort() == z3.IntSort(): sub.append((x, z3.IntVal(self.d.get(n, 0))))
+            else: sub.append((x, z3.BoolVal(bool(self.d.get(n, False)))))
+        return z3.simplify(z3.substitute(e, *sub)) if sub else z3.simplify(e)
+
+def model_ok(model, constraints):
+    """independent validation of a solver model: every constraint evaluates to true under it"""
+    try:
+        if model.zm is not None:
+            return all(z3.is_true(model.zm.eval(c, model_completion=True)) for c in constraints)
+        names = {}
+        seen = set()
+        def walk(e):
+            if e.get_id() in seen: return
+            seen.add(e.get_id())
+            if z3.is_const(e) and e.decl().kind() == z3.Z3_OP_UNINTERPRETED: names[e.decl().name()] = e
+            for ch in e.children(): walk(ch)
+        for c in constraints: walk(c)
+        sub = []
+        for n, e in names.items():
+            if e.sort() == _STR: sub.append((e, z3.StringVal(model.d.get(n, ''))))
+            elif e.sort() == z3.IntSort(): sub.append((e, z3.IntVal(model.d.get(n, 0))))
+            elif e.sort() == z3.BoolSort(): sub.append((e, z3.BoolVal(bool(model.d.get(n, False)))))
+        return all(z3.is_true(z3.simplify(z3.substitute(c, *sub))) for c in constraints)
+    except Exception:
+        return False
 
 def solve(constraints, want_model=False, budget_s=None, label=''):
     """returns ('sat', Model|None) | ('unsat', backend) ; raises Undecided"""
@@ -255,6 +287,9 @@ def solve(constraints, want_model=False, budget_s=None, label=''):
     sol = z3.Solver(); sol.set('timeout', QUICK_MS)
     for c in constraints: sol.add(c)
     t = time.time(); r = sol.check(); STATS['z3'] += 1; STATS['z3_t'] += time.time() - t
+    if os.environ.get('PYVC_SLOW') and time.time() - t > float(os.environ['PYVC_SLOW']):
+        print('SLOW', label, r, round(time.time() - t, 2), 'n=', len(constraints), sol.sexpr()[-int(os.environ.get('PYVC_SLOWN', '600')):], flush=True)
+    if os.environ.get('PYVC_FORCE_CVC5') and want_model: r = z3.unknown     # test hook: exercise the cvc5 model path
     if r == z3.sat: return 'sat', (Model(zm=sol.model()) if want_model else None), 'z3'
     if r == z3.unsat: return 'unsat', None, 'z3'
     # portfolio: cvc5 in a subprocess, z3 again with the full budget, concurrently
@@ -294,7 +329,7 @@ def _wait(proc, secs):
 class PathState:
     def __init__(self, decisions=()):
         self.decisions = list(decisions); self.pos = 0
-        self.pc = []; self.excl = {}; self.subst = {}; self.nvars = 0
+        self.pc = []; self.excl = {}; self.subst = {}; self.nvars = 0; self.derived = {}
         self.pending = []   # alternative decision prefixes discovered
         self.log = []
         self.inputs = {}    # name -> symbolic value (for concretisation)
@@ -311,7 +346,7 @@ class PathState:
         if pattern is not None:
             zre, _ = pattern_re(pattern); self.assume(z3.InRe(v.z, zre))
             for c in '/_.\n?:,&=':
-                if c not in self.excl[v.name] and re_excludes(zre, c): self.excl[v.name].add(c)
+                if re_excludes(zre, c): self.excl[v.name].add(c); self.derived.setdefault(v.name, set()).add(c)
         if nonempty: self.assume(v.z != z3.StringVal(''))
         return SStr([v])
     def excl_re(self, chars):
@@ -328,17 +363,24 @@ class PathState:
             for ch in e.children(): walk(ch)
         for c in cs: walk(c)
         for n in sorted(names):
-            ex = self.excl.get(n)
+            ex = self.excl.get(n, set()) - self.derived.get(n, set())    # derived exclusions are implied by the variable's own pattern constraint
             if ex: cs.append(z3.InRe(z3.String(n), self.excl_re(ex)))
         return cs
     def feasible(self, extra=()):
         r = solve(self._constraints(extra), label='feasibility')
         return r[0] == 'sat'
     def model(self, extra=()):
-        r = solve(self._constraints(extra), want_model=True, label='model')
+        cs = self._constraints(extra)
+        r = solve(cs, want_model=True, label='model')
         if r[0] != 'sat': raise Undecided('model query on infeasible state')
+        if not model_ok(r[1], cs):
+            STATS['bad_model'] = STATS.get('bad_model', 0) + 1
+            raise Undecided(f'solver ({r[2]}) returned a model that does not satisfy the constraints')
         return r[1]
     def prove(self, cond):
+        r = self._prove(cond)
+        return r
+    def _prove(self, cond):
         """('discharged', backend) | ('refuted', Model) | ('undecided', why) for: pc ==> cond"""
         if cond is True: return 'discharged', 'structural'
         if cond is False:
@@ -348,6 +390,9 @@ class PathState:
             r = solve(self._constraints([z3.Not(cond.z)]), want_model=True, label='obligation')
         except Undecided as e: return 'undecided', str(e)
         if r[0] == 'unsat': return 'discharged', r[2]
+        if not model_ok(r[1], self._constraints([z3.Not(cond.z)])):
+            STATS['bad_model'] = STATS.get('bad_model', 0) + 1
+            return 'undecided', f'solver ({r[2]}) returned a counter-model that does not satisfy the constraints'
         return 'refuted', r[1]
     # ---- decisions
     def do_subst(self, v, atoms):
@@ -475,6 +520,23 @@ class PathState:
                     if not zs: return True
                     return SBool(z3.And(*zs) if len(zs) > 1 else zs[0])
         return SBool(a.z() == b.z())
+    def unify(self, a, b):
+        """after a == b was assumed: substitute variable-for-variable / variable-for-literal where the two strings align at separators"""
+        a = self.norm(a); b = self.norm(b)
+        for c in '?:/&=,':
+            if all(self.free_of(x, c) or isinstance(x, str) for x in a.atoms + b.atoms):
+                pa = self._split_known(a, c); pb = self._split_known(b, c)
+                if len(pa) == len(pb) and len(pa) > 1:
+                    for x, y in zip(pa, pb): self.unify(x, y)
+                    return
+        if len(a.atoms) == 1 and isinstance(a.atoms[0], Var) and b.is_lit(): self.do_subst(a.atoms[0], b.atoms); return
+        if len(b.atoms) == 1 and isinstance(b.atoms[0], Var) and a.is_lit(): self.do_subst(b.atoms[0], a.atoms); return
+        if len(a.atoms) == 1 and len(b.atoms) == 1 and isinstance(a.atoms[0], Var) and isinstance(b.atoms[0], Var) and a.atoms[0].name != b.atoms[0].name:
+            va, vb = a.atoms[0], b.atoms[0]
+            ex = self.excl.get(va.name, set()) | self.excl.get(vb.name, set())
+            dv = self.derived.get(va.name, set()) & self.derived.get(vb.name, set())   # only what both patterns imply stays "derived"... conservative: re-assert the rest
+            self.excl[va.name] = ex; self.derived[va.name] = self.derived.get(va.name, set()) | self.derived.get(vb.name, set())
+            self.do_subst(vb, (va,))
     def _split_known(self, s, c):
         parts = [[]]
         for a in s.atoms:
